@@ -219,11 +219,9 @@ static void push_evt(m_mod_t *mod, evt_priv_t *evt) {
 }
 
 static int recv_events(m_ctx_t *c, int timeout) {
-    static uint64_t last_time_called;
-
     if (c->stats.recv_msgs == 0) {
         // First time entering: (re)start counter
-        fetch_ms(&last_time_called, NULL);
+        fetch_ms(&c->stats.last_recv_time, NULL);
     }
 
     int err;
@@ -236,7 +234,7 @@ static int recv_events(m_ctx_t *c, int timeout) {
     // Store idling time stat
     uint64_t now;
     fetch_ms(&now, NULL);
-    c->stats.idle_time += now - last_time_called;
+    c->stats.idle_time += now - c->stats.last_recv_time;
 
     /*
      * User callbacks run while processing this batch may pause, stop or deregister
@@ -360,7 +358,7 @@ static int recv_events(m_ctx_t *c, int timeout) {
         }
     }
 
-    fetch_ms(&last_time_called, NULL);
+    fetch_ms(&c->stats.last_recv_time, NULL);
     return recved;
 }
 
